@@ -98,7 +98,7 @@ RoundTrip(e) ==
     /\ Chk(e, "C18", "bytes", (spec.ok /\ okc) => e.out.b = spec.b)
     /\ Chk(e, "C18", "decodes", okc => un.r = "ok")
     /\ Chk(e, "C18", "consumed_equals_length", dec => un.n = Len(e.out.b))
-    /\ Chk(e, "C18", "same_channel", dec => un.ch = (IF kind = "ProtocolHeader" THEN 0 ELSE ch))
+    /\ Chk(e, "C18", "same_channel", dec => un.ch = (IF kind \in {"ProtocolHeader", "Heartbeat"} THEN 0 ELSE ch))
     /\ Chk(e, "C18", "same_kind", dec => un.f.cls = f.cls)
     /\ Chk(e, "C18", "body_identical",
            (dec /\ kind = "ContentBody" /\ un.f.cls = "ContentBody") => (un.f.b = f.b /\ un.f.len = Len(f.b) /\ f.len = Len(f.b)))
@@ -106,6 +106,37 @@ RoundTrip(e) ==
     /\ Chk(e, "C18", "protocol_header_triple",
            (dec /\ kind = "ProtocolHeader" /\ un.f.cls = "ProtocolHeader") => (un.f.v = f.v /\ un.n = 8))
     \* C04: bytes equal the reference encoder
+    /\ Chk(e, "C04", "accepted", spec.ok => okc)
+    /\ Chk(e, "C04", "bytes_equal_reference", (spec.ok /\ okc) => e.out.b = spec.b)
+    /\ UNCHANGED << legacy, tz >>
+
+\* ---- fixed-width integer encoders, direct marshal() calls, by_type ----------
+FixedSpec(fn, x) ==
+    CASE fn = "short_int"     -> IF FitsSigned(x, 2)   THEN Ok(Twos(x, 2))     ELSE Err("TypeError")
+      [] fn = "short_uint"    -> IF FitsUnsigned(x, 2) THEN Ok(Unsigned(x, 2)) ELSE Err("TypeError")
+      [] fn = "long_int"      -> IF FitsSigned(x, 4)   THEN Ok(Twos(x, 4))     ELSE Err("TypeError")
+      [] fn = "long_uint"     -> IF FitsUnsigned(x, 4) THEN Ok(Unsigned(x, 4)) ELSE Err("TypeError")
+      [] fn = "long_long_int" -> IF FitsSigned(x, 8)   THEN Ok(Twos(x, 8))     ELSE Err("TypeError")
+
+EncodeFixed(e) ==
+    LET spec == FixedSpec(e.fn, IntOfV(e.in)) okc == e.out.r = "ok" IN
+    /\ Chk(e, "C11", "fixed_width_accepts_in_range", spec.ok => (okc /\ e.out.b = spec.b))
+    /\ Chk(e, "C11", "fixed_width_refuses_with_TypeError", ~spec.ok => (~okc /\ e.out.type = "TypeError"))
+    /\ Chk(e, "C04", "bytes_equal_reference", spec.ok => (okc /\ e.out.b = spec.b))
+    /\ UNCHANGED << legacy, tz >>
+
+MarshalPart(e) ==
+    LET spec == IF e.kind = "props" THEN EncProps(legacy, e.in.props)
+                ELSE LET m == MethodByName(e.in.cls) IN
+                     IF Valid(m, e.in.vals) THEN EncArgs(legacy, m, e.in.vals) ELSE Err("ValueError")
+        okc == e.out.r = "ok"
+    IN
+    /\ Chk(e, "C04", "accepted", spec.ok => okc)
+    /\ Chk(e, "C04", "bytes_equal_reference", (spec.ok /\ okc) => e.out.b = spec.b)
+    /\ UNCHANGED << legacy, tz >>
+
+EncodeArg(e) ==
+    LET spec == EncArg(legacy, e.ty, e.in) okc == e.out.r = "ok" IN
     /\ Chk(e, "C04", "accepted", spec.ok => okc)
     /\ Chk(e, "C04", "bytes_equal_reference", (spec.ok /\ okc) => e.out.b = spec.b)
     /\ UNCHANGED << legacy, tz >>
@@ -119,6 +150,9 @@ Step == /\ l <= Len(Events)
         /\ LET e == Events[l] IN
            CASE e.a = "EncodeValue" -> EncodeValue(e)
              [] e.a = "RoundTrip"   -> RoundTrip(e)
+             [] e.a = "EncodeFixed" -> EncodeFixed(e)
+             [] e.a = "MarshalPart" -> MarshalPart(e)
+             [] e.a = "EncodeArg"   -> EncodeArg(e)
              [] e.a = "Toggle"      -> Toggle(e)
              [] e.a = "SetTZ"       -> SetTZ(e)
 
